@@ -141,6 +141,8 @@ func TestReplay(t *testing.T) {
 					newWorld()
 				}
 				inWorld++
+				// leave a marker so that the driver knows which behaviour a dying worker was replaying
+				_ = os.WriteFile(os.Getenv("VERIF_RESULT")+".cur", []byte(fmt.Sprintf("%d %s %s\n%s", idx, tb.Name, ad.Name(), stepsJSON(b.Steps))), 0o644)
 				tag := fmt.Sprintf("b%dt%da%d", idx, ti, ai)
 				s := NewSession(w, hdr, tag, tb, ad)
 				s.Variant = idx + seed
